@@ -530,6 +530,40 @@ def clone_and_ragged_probe(run):
     if shared or changed:
         run.fail("state-aliased-with-caller", f"StateManager.from_dict(d) keeps {len(shared)} arrays of the caller's dictionary: overwriting d afterwards "
                  f"{'changed' if changed else 'can change'} the new manager's state and history", ops=["d = s.to_dict()", "clone = StateManager.from_dict(d)", "d[...][:] = 123"])
+    # (i') every array-valued current key, with the dtype it naturally has (labels are int64): set, overwrite the caller's array, get,
+    # overwrite what was returned - the state keeps the values it was given
+    for key, val in (("assignments", np.arange(4, dtype=np.int64)), ("logl", np.arange(4, dtype=float)), ("u", np.full((4, 2), 0.25)),
+                     ("x", np.full((4, 2), 1.5)), ("blobs", np.arange(4, dtype=float))):
+        sm = StateManager(2)
+        mine = val.copy()
+        sm.set_current(key, mine)
+        mine[...] = 77
+        run.case(key=("set-get", key), nontrivial=True)
+        if not np.array_equal(np.asarray(sm.get_current(key)), val):
+            run.fail("state-aliased-with-caller", f"set_current({key!r}, a) keeps the caller's {val.dtype} array: overwriting a changed the state", ops=[f"set_current({key!r}, a)", "a[...] = 77"])
+            continue
+        sm2 = StateManager(2)
+        sm2.update_current({key: (mine2 := val.copy())})
+        mine2[...] = 77
+        if not np.array_equal(np.asarray(sm2.get_current(key)), val):
+            run.fail("state-aliased-with-caller", f"update_current({{{key!r}: a}}) keeps the caller's {val.dtype} array", ops=[f"update_current({{{key!r}: a}})", "a[...] = 77"])
+            continue
+        got = sm.get_current(key)
+        got[...] = 55
+        if not np.array_equal(np.asarray(sm.get_current(key)), val):
+            run.fail("state-aliased-with-caller", f"get_current({key!r}) returns the internal array", ops=[f"g = get_current({key!r})", "g[...] = 55"])
+    # (i'') every way of asking for one committed batch: index alone, index with flat - none hands out the batch itself
+    smh = mk([4, 4])
+    for key in ("u", "x", "logl"):
+        for kw in (dict(index=0), dict(index=0, flat=True), dict(index=1, flat=False), dict(flat=True)):
+            try:
+                got = smh.get_history(key, **kw)
+            except Exception:
+                continue
+            run.case(key=("history-accessor", key, str(sorted(kw.items()))), nontrivial=True)
+            if any(isinstance(got, np.ndarray) and b.size and np.shares_memory(got, b) for b in internal(smh)):
+                run.fail("state-aliased-with-caller", f"get_history({key!r}, {', '.join(f'{a}={b}' for a, b in kw.items())}) returns (a view of) the committed batch",
+                         ops=[f"h = get_history({key!r}, {kw})", "h[...] = 0"])
     # (ii)
     sm = mk([4, 6])
     for key in ("u", "x", "logl"):
